@@ -202,7 +202,7 @@ def deep_value(rng, depth):
 class DeepCtx:
     """names bound so far (for repeated names across levels) and enclosing lets (for dynamic `(k)` patterns)"""
     def __init__(self, rng):
-        self.rng, self.bound, self.n, self.outer = rng, {}, 0, []
+        self.rng, self.bound, self.n, self.outer, self.nexprs = rng, {}, 0, [], 0
 
     def name_for(self, v):
         same = [x for x, w in self.bound.items() if w == v]
@@ -236,8 +236,15 @@ def deep_leaf(rng, v, cx, in_set=False):
         return X.pvar(cx.name_for(v))
     if r < 0.58:
         return X.pwild()
-    if r < 0.8 and (not in_set or is_nat(v)):
+    if r < 0.76 and (not in_set or is_nat(v)):
         return X.pexpr(v)                                     # literal / parenthesised constant expression
+    if r < 0.86 and not in_set:
+        # (e1, e2, ..): any of the alternatives; the value itself sits at a random position, as a constant or as (k)
+        alts = [rng.choice(LEAVES + [X.arr([N(1)]), X.tup([("a", N(1))])]) for _ in range(rng.randrange(1, 3))]
+        me = v if rng.random() < 0.6 else X.var(cx.outer_for(v))
+        alts.insert(rng.randrange(len(alts) + 1), me)
+        cx.nexprs += 1
+        return X.pexprs(alts)
     return X.pexpr(X.var(cx.outer_for(v)))                    # (k): the value of an enclosing let
 
 
@@ -392,6 +399,7 @@ def deep_cases(rng, n, stats):
         reps = len(pat_name_list(p, [])) - len(bound)
         stats["repeated_names"][str(min(reps, 3))] = stats["repeated_names"].get(str(min(reps, 3)), 0) + 1
         stats["dynamic_expr_patterns"] += len(cx.outer)
+        stats["alternative_patterns"] = stats.get("alternative_patterns", 0) + cx.nexprs
         if miss:
             stats["near_miss_depth"][str(md)] = stats["near_miss_depth"].get(str(md), 0) + 1
     return out
@@ -425,7 +433,7 @@ SIG_SET_EXPR = "set-pattern-expr-item"
 def pats_of(e, acc):
     """all patterns occurring in a program"""
     if isinstance(e, tuple):
-        if e and isinstance(e[0], str) and e[0] in ("pvar", "pwild", "pexpr", "parr", "ptup", "pdict", "pset"):
+        if e and isinstance(e[0], str) and e[0] in ("pvar", "pwild", "pexpr", "pexprs", "parr", "ptup", "pdict", "pset"):
             acc.append(e)
         for x in e:
             pats_of(x, acc)
@@ -465,6 +473,18 @@ WITNESS_AST = {      # the committed witnesses as abstract trees (the source tex
     SIG_DICT_REST: X.let(X.pdict([(X.string("a"), X.item(X.pvar("x"))), (None, X.extra("r")), (X.string("b"), X.item(X.pvar("y")))]),
                          X.dict_([(X.string("a"), N(1)), (X.string("b"), N(2)), (X.string("c"), N(3))]), X.var("r")),
 }
+
+
+def exprs_core():
+    """(e1, e2, ..) patterns: the value equal to the first / a later / no alternative, constants and (k) mixed, top level and nested"""
+    out = []
+    for tg in (N(1), N(2), N(3), X.string("a"), X.arr([N(1)])):
+        for alts in ([N(1), N(2)], [N(2), N(1)], [X.var("k"), N(2)], [N(2), X.var("k")], [X.string("a"), X.arr([N(1)]), N(3)]):
+            p = X.pexprs(alts)
+            out.append(("exprs core", X.let(X.pvar("k"), N(1), X.condpat(tg, [(p, X.string("hit")), (X.pwild(), X.string("miss"))]))))
+            out.append(("exprs core", X.let(X.pvar("k"), N(1), X.let(X.parr([X.item(X.pvar("x")), X.item(p)]), X.arr([N(7), tg]), X.var("x")))))
+            out.append(("exprs core", X.let(X.pvar("k"), N(1), X.call(X.fn(X.ptup([("a", X.item(p)), ("", X.extra("r"))]), X.var("r")), X.tup([("a", tg), ("b", N(5))])))))
+    return out
 
 
 def dict_rest_core():
@@ -607,6 +627,7 @@ def gen_cases(rng, tier, dstats=None):
     # the region of KF-C09-01 (and its committed witness)
     out += set_expr_core()
     out += dict_rest_core()
+    out += exprs_core()
     # committed probes
     out += [("probe", X.let(X.parr([X.item(X.pvar("x")), X.item(X.pvar("x"))]), X.arr([N(1), X.string("1")]), X.var("x"))),
             ("probe", X.let(X.parr([X.item(X.pvar("a")), X.item(X.pvar("b"))]), X.arr([N(1), N(2)], 1), X.var("a"))),
